@@ -386,9 +386,11 @@ impl World {
                 v.push(json!({"a": "poll", "q": q}));
                 v.push(json!({"a": "poll", "q": q}));
             } else {
-                for (p, c) in self.h.keep_alive_tracked(q) {
+                let mut tracked: Vec<(String, usize)> = self.h.keep_alive_tracked(q).iter().map(|(p, c)| (self.pname(p), *c)).collect();
+                tracked.sort();
+                for (p, c) in tracked {
                     if rng.gen_bool(0.5) {
-                        v.push(json!({"a": "expire", "q": q, "p": self.pname(&p), "c": c}));
+                        v.push(json!({"a": "expire", "q": q, "p": p, "c": c}));
                     }
                 }
             }
